@@ -32,7 +32,14 @@ theorem run_append (m : Mode) (a b : Str) :
 theorem goTR_eq (m : Mode) (cs : Str) (out : Array Tok) : goTR m cs out = out ++ (go m cs).toArray := by
   induction cs generalizing m out with
   | nil => simp [goTR, go_nil]
-  | cons c cs ih => simp [goTR, go_cons, ih, Array.append_assoc]
+  | cons c cs ih =>
+    rw [go_cons]
+    unfold goTR
+    cases h : step m c with
+    | mk ts m' =>
+      cases ts with
+      | nil => simp [ih]
+      | cons t ts => simp [ih, Array.append_assoc]
 
 theorem lexFast_eq (s : Str) : lexFast s = lex s := by
   simp [lexFast, lex, goTR_eq]
@@ -544,6 +551,21 @@ theorem decode_iff (raw v : Str) : decode raw = .ok v ↔ Denotes raw v := by
   · rintro ⟨q, body, hq, rfl, hb⟩
     rw [decode_wrapped q body hq]
     exact (unesc_iff body v).2 hb
+
+/-! ## LIKE patterns -/
+
+theorem likeLiteral_likeEsc (s : Str) : likeLiteral (likeEsc s) = some s := by
+  unfold likeLiteral
+  induction s with
+  | nil => rfl
+  | cons c cs ih =>
+    by_cases h : c = '\\' ∨ c = '%' ∨ c = '_'
+    · simp only [likeEsc, h, if_true]
+      simp [likeLitGo, ih]
+    · simp only [likeEsc, h, if_false]
+      have h1 : c ≠ '\\' := fun e => h (Or.inl e)
+      have h2 : ¬ (c = '%' ∨ c = '_') := fun e => h (Or.inr e)
+      simp [likeLitGo, h1, h2, ih]
 
 /-! ## property keys -/
 
